@@ -83,10 +83,10 @@ var grainGates = []string{"cluster.GrainExists", "cluster.GetGrain", "cluster.Pu
 
 // gate class a model pc stands for
 var gateOfPC = map[string]string{"call": "call", "sG": "G", "oG": "G", "cG": "G", "iG": "G", "oE": "E", "iE": "E", "cNX": "NX", "P": "P",
-	"fR": "R", "pR": "R", "iR": "R", "act": "act", "pD": "deact", "wait": "wait", "done": "done"}
+	"fR": "R", "pR": "R", "iR": "R", "fX": "R", "act": "act", "pD": "deact", "fD": "deact", "wait": "wait", "done": "done"}
 
 // gate a model action passes
-var gateOfAction = map[string]string{"call": "call", "E": "E", "G": "G", "NX": "NX", "P": "P", "R": "R", "actok": "act", "actfail": "act", "deact": "deact"}
+var gateOfAction = map[string]string{"call": "call", "E": "E", "G": "G", "NX": "NX", "P": "P", "R": "R", "actok": "act", "actfail": "act", "deact": "deact", "Pfail": "P"}
 
 func (wd *world) registerKinds() {
 	ctx := context.Background()
@@ -209,6 +209,13 @@ func grainReplay(wd *world, bs []behaviour, st *stats) {
 			if x.A == "actfail" {
 				failThread.Store(x.T, true)
 			}
+			if x.A == "Pfail" { // the node's next plain put (the PutGrain this thread is parked in front of) fails
+				if n, ok := wd.byObj[pend.Obj]; ok {
+					wd.st.mu.Lock()
+					wd.st.fail[n.name+"/put"]++
+					wd.st.mu.Unlock()
+				}
+			}
 			after, isParked, err := performStep(s, x.T, wake, x.PC == "wait")
 			if err != nil {
 				if _, ok := err.(sched.ErrWatchdog); ok {
@@ -292,6 +299,7 @@ func grainExplore(wd *world, runs int, seed int64, mix string, st *stats) {
 		wd.startGrainThreads(s, name, kinds, orgs)
 		names := sortedKeys(kinds)
 		fails := rng.Intn(3)
+		putFails := rng.Intn(2)
 		blocked := map[string]bool{}
 		prio := map[string]int{}
 		for _, n := range names {
@@ -352,6 +360,14 @@ func grainExplore(wd *world, runs int, seed int64, mix string, st *stats) {
 			if before.Point == "act" && fails > 0 && rng.Intn(3) == 0 {
 				fails--
 				failThread.Store(best, true)
+			}
+			if before.Point == "cluster.PutGrain" && putFails > 0 && rng.Intn(4) == 0 {
+				if n, ok := wd.byObj[before.Obj]; ok {
+					putFails--
+					wd.st.mu.Lock()
+					wd.st.fail[n.name+"/put"]++
+					wd.st.mu.Unlock()
+				}
 			}
 			if err := s.Release(best); err != nil {
 				continue
